@@ -205,11 +205,11 @@ func (k Keeper) UpdateLPRewards(ctx sdk.Context) error {
 	}
 	lpsEdenAmount := edenAmountPerYear.Quo(math.NewInt(totalBlocksPerYear))
 
-	// Ensure edenDenomPrice is not zero to avoid division by zero
+	// The Eden price is the ELYS price implied by the amm pool times the price of one base unit of USDC: it rounds to zero
+	// once users have made that pool lopsided enough. A zero price cannot cap the Eden APR (division by zero), and failing
+	// EndBlock would halt the chain for as long as the pool stays like that: allocate no Eden in such a block instead.
 	edenDenomPrice := k.amm.GetEdenDenomPrice(ctx, baseCurrency)
-	if edenDenomPrice.IsZero() {
-		return errorsmod.Wrap(types.ErrNoInflationaryParams, "invalid eden price")
-	}
+	edenPriceIsZero := edenDenomPrice.IsZero()
 
 	// Distribute Eden / USDC Rewards
 	for _, pool := range k.GetAllPoolInfos(ctx) {
@@ -234,13 +234,16 @@ func (k Keeper) UpdateLPRewards(ctx sdk.Context) error {
 		newEdenAllocatedForPool := math.LegacyZeroDec()
 
 		// Maximum eden APR - 30% by default
-		poolMaxEdenAmount := params.MaxEdenRewardAprLps.
-			Mul(proxyTVL).
-			QuoInt64(totalBlocksPerYear).
-			Quo(edenDenomPrice)
+		poolMaxEdenAmount := math.LegacyZeroDec()
+		if !edenPriceIsZero {
+			poolMaxEdenAmount = params.MaxEdenRewardAprLps.
+				Mul(proxyTVL).
+				QuoInt64(totalBlocksPerYear).
+				Quo(edenDenomPrice)
+		}
 
 		// Use min amount (eden allocation from tokenomics and max apr based eden amount)
-		if pool.EnableEdenRewards {
+		if pool.EnableEdenRewards && !edenPriceIsZero {
 			newEdenAllocatedForPool = poolShareEdenEnable.MulInt(lpsEdenAmount)
 			newEdenAllocatedForPool = math.LegacyMinDec(newEdenAllocatedForPool, poolMaxEdenAmount)
 			// an allocation below one base unit mints nothing: a zero coin is not a valid amount to mint
